@@ -17,7 +17,7 @@ CHECKS = {
    "DESIGN.md §2 C07"),
  "C20": ("model_checking", "E1-choice",
    "stateless choice-tree exploration of encrypted containers (OOXML-in-CFB, BIFF8 FILEPASS, ods manifests) and of unencrypted workbooks on the real readers",
-   "Encrypted OOXML packages (6 sizes around the mini-stream cutoff, 6 EncryptionInfo variants (standard, agile, oversized, absent, extensible 3.3 / 4.3), DataSpaces storage or not) in CFB layouts (v3/v4, 5 sector orders, directory variations, stale bytes after name terminators) opened with Xlsx and Xlsb (reader positioned at the start, behind the magic bytes or at the end); BIFF workbooks with FILEPASS of 5 kinds (BIFF8 RC4, XOR, CryptoAPI v2/v4; the 4-byte BIFF5 XOR form in a Book stream) at both legal positions with garbled record bodies; ods manifests with encryption-data on the first, a middle, the last, all or several of 3-5 entries, with or without a leading manifest:keyinfo element, with or without comments between and inside the entries: a 15.7 MB package (two DIFAT sectors, directory behind sector 30208) in three sector orders, chains owning spare sectors: every one must fail with the reader's Password error. Conversely unencrypted xlsx (every C01 encoding), xlsb, xls (CFB layouts, extra streams, WRITEPROTECT, PROTECT + PASSWORD verifier) and ods workbooks whose names and strings spell the trigger words must open. Full product for ods (thorough: all families), <=4 deviations otherwise.",
+   "Encrypted OOXML packages (6 sizes around the mini-stream cutoff, 6 EncryptionInfo variants (standard, agile, oversized, absent, extensible 3.3 / 4.3), DataSpaces storage or not) in CFB layouts (v3/v4, 5 sector orders, directory variations, stale bytes after name terminators) opened with Xlsx and Xlsb (reader positioned at the start, behind the magic bytes or at the end); BIFF workbooks with FILEPASS of 5 kinds (BIFF8 RC4, XOR, CryptoAPI v2/v4; the 4-byte BIFF5 XOR form in a Book stream) at both legal positions with garbled record bodies; ods manifests with encryption-data on the first, a middle, the last, all or several of 3-5 entries, with or without a leading manifest:keyinfo element, with or without comments between and inside the entries: a 15.7 MB package (two DIFAT sectors, directory behind sector 30208) in three sector orders, chains owning spare sectors: every one must fail with the reader's Password error. Conversely unencrypted xlsx (every C01 encoding), xlsb, xls (CFB layouts, extra streams, an embedded OLE object that is itself an encrypted OOXML document, WRITEPROTECT, PROTECT + PASSWORD verifier) and ods workbooks whose names and strings spell the trigger words must open. Full product for ods (thorough: all families), <=4 deviations otherwise.",
    "Trusted: the container writers; ciphertext is pseudo-random.",
    "DESIGN.md §2 C20"),
  "C18": ("model_checking", "E1-choice",
@@ -27,7 +27,7 @@ CHECKS = {
    "DESIGN.md §2 C18"),
  "C15": ("model_checking", "E1-choice",
    "complete enumeration of master formulas (templates x reference alphabet) x offsets through the real translator vs a reference shift; choice-tree exploration of group shapes end to end",
-   "(a) 40 formula templates (function names ending in digits, apostrophes inside string literals and double quotes inside quoted sheet names, names that only look like references (XFE1, A1048577, A0, B01), defined names with non-ASCII letters ending like a cell reference, sheet-qualified / quoted / non-ASCII sheet names, strings with cell-like text and doubled quotes, exponent numbers, names with digits) with 24 references (all absolute/relative combinations at A1, Z10, AA5, ZZ100, C16384, B20000) in every slot, plus masters touching the last column / last row (XFD2, A1048576, XFD1048576) moved only where they stay inside the sheet, are translated by every offset of a window through the real replace_cell_names and compared with the piecewise reference shift; (b) groups of 7 shapes (1-D and 2-D) at 3 master positions with every master formula, the master not being the top-left cell of the declared range, a second group (below, or with its master on the last row of the first), members repeating the master text, swapped si order, a non-member cell inside the range, prefix, implicit references, rows that never carry r, master text split by CDATA and comments and indented XML are read through worksheet_formula (<=2, thorough 4 deviations): every member must carry its translated formula, other cells theirs.",
+   "(a) 40 formula templates (function names ending in digits, apostrophes inside string literals and double quotes inside quoted sheet names, names that only look like references (XFE1, A1048577, A0, B01), defined names with non-ASCII letters ending like a cell reference, sheet-qualified / quoted / non-ASCII sheet names, strings with cell-like text and doubled quotes, exponent numbers, names with digits) with 24 references (all absolute/relative combinations at A1, Z10, AA5, ZZ100, C16384, B20000) in every slot, plus masters touching the last column / last row (XFD2, A1048576, XFD1048576) moved only where they stay inside the sheet, are translated by every offset of a window through the real replace_cell_names and compared with the piecewise reference shift; (b) groups of 7 shapes (1-D and 2-D) at 3 master positions with every master formula, the master not being the top-left cell of the declared range, a second group (below, or with its master on the last row of the first), members repeating the master text, swapped or sparse si values, attributes of c / f elements in reverse order, a non-member cell inside the range, prefix, implicit references, rows that never carry r, master text split by CDATA and comments and indented XML are read through worksheet_formula (<=2, thorough 4 deviations): every member must carry its translated formula, other cells theirs.",
    "Trusted: the piece-list reference in props/c15.rs and gen/xlsx.rs. Offsets keep references inside the sheet.",
    "DESIGN.md §2 C15"),
  "C14": ("model_checking", "E1-choice",
@@ -37,22 +37,22 @@ CHECKS = {
    "DESIGN.md §2 C14"),
  "C17": ("model_checking", "E1-choice",
    "stateless choice-tree exploration of merged-region sets and table geometries through every API path of the real xlsx / xls readers",
-   "Workbooks with 1-2 sheets, 0-3 merged regions per sheet drawn in every order from five regions (A1 to the last rows/columns of the format; xls also split over two MERGECELLS records), and for xlsx 0-2 tables at 5 placements relative to the used range x header 0/1 x totals 0/1 x totalsRowShown absent/1/0 x .rels attribute order x indentation x explicit default counts x table parts under xl/tables or another folder x table parts with autoFilter / calculated column / tableStyleInfo / x14:table alt text x either sheet x a second sheet that holds merged regions but no values x prefix, all choice vectors with <=5 (thorough 8) deviations; worksheet_merge_cells(_at), load_merged_regions + merged_regions(_by_sheet), load_tables, table_names(_in_sheet), table_by_name(_ref) are compared with the declared geometry and the model values.",
+   "Workbooks with 1-2 sheets, 0-3 merged regions per sheet drawn in every order from five regions (A1 to the last rows/columns of the format; xls also split over two MERGECELLS records), and for xlsx 0-2 tables at 5 placements relative to the used range x header 0/1 x totals 0/1 x totalsRowShown absent/1/0 x .rels attribute order x indentation x explicit default counts x table parts under xl/tables or another folder x table parts with autoFilter / calculated column / tableStyleInfo / x14:table alt text x either sheet x a second sheet that holds merged regions but no values x prefix, all choice vectors with <=5 (thorough 6) deviations; worksheet_merge_cells(_at), load_merged_regions + merged_regions(_by_sheet), load_tables, table_names(_in_sheet), table_by_name(_ref) are compared with the declared geometry and the model values. On the repository's own xlsx / xls fixtures the access paths are compared with each other (by name = by index = loaded list, owned table = borrowed table).",
    "Trusted: gen/xlsx.rs, gen/biff8.rs; tables keep at least one data row.",
    "DESIGN.md §2 C17"),
  "C08": ("model_checking", "E2-bfs",
    "exhaustive enumeration of option histories (depth <= 3 over 12 options, depth 4 over 4/12) x all row patterns x four formats on real readers vs the statement",
-   "For every subset of rows 0..4 being non-empty (32 patterns) plus a sheet occupying the last two rows of the grid, two column offsets and all four formats (xlsx and xlsb also with an out-of-date advisory dimension record, xlsx also with rows and cells without r attributes, ods also with rows inside table:table-header-rows / table:table-rows, xls also with blank-string formula results alone on the first and last used row), every history of <=3 header-row settings over FirstNonEmptyRow and Row(n), n in {0..6, 65535, 65536, 1048576, u32::MAX}, and every history of 4 over a 4-option subset (thorough: all 12), is run on one reader with a read after every step; each read must not panic, start at row n iff data exists at or below n (else be empty), agree cell-by-cell with the default read at every position >= n and contain nothing else. The same statement is checked on every sheet of every fixture workbook under the repository's tests/ directory, with the sheet's own default read as the model.",
+   "For every subset of rows 0..4 being non-empty (32 patterns) plus a sheet occupying the last two rows of the grid, two column offsets and all four formats (xlsx and xlsb also with an out-of-date advisory dimension record, xlsx also with rows and cells without r attributes and with formatted value-less cells below the data, ods also with rows inside table:table-header-rows / table:table-rows, xls also with blank-string formula results alone on the first and last used row), every history of <=3 header-row settings over FirstNonEmptyRow and Row(n), n in {0..6, 65535, 65536, 1048576, u32::MAX}, and every history of 4 over a 4-option subset (thorough: all 12), is run on one reader with a read after every step; each read must not panic, start at row n iff data exists at or below n (else be empty), agree cell-by-cell with the default read at every position >= n and contain nothing else. The same statement is checked on every sheet of every fixture workbook under the repository's tests/ directory, with the sheet's own default read as the model.",
    "Trusted: the four writers and the statement-level oracle in props/c08.rs; columns of the returned range are not constrained.",
    "DESIGN.md §2 C08"),
  "C16": ("model_checking", "E1-choice",
    "stateless choice-tree exploration of workbook metadata (sheet lists, names, visibility, kinds, defined names, date system) in four formats on the real readers",
-   "Workbooks with 0-3 sheets over 9 names (XML specials, quotes, non-ASCII, a C1 control character, astral, 31 characters), every visibility and every sheet kind the format can express, 0-2 reference-valued defined names (pointing at B2 or at the last cell of the sheet), xlsb relationship ids with non-ASCII letters, both date systems with a date cell on every worksheet, xlsx prefix / xls name packing / ods table:name attribute last / ods style-name collisions across families / ods table:dde-links with an unnamed table / xlsx defined-name text split by a comment / xlsx workbook part with calcPr and an extLst holding x15:workbookPr / .rels attribute order / indented documents / xls substreams in reverse of BoundSheet8 order / a formula-less name record first (xls, xlsb): all choice vectors with <=3 (thorough 5) deviations plus the full product over one-sheet workbooks; sheet_names, sheets_metadata, defined_names and the date cells (xls: NUMBER or RK integer /100) are compared exactly and in order, and must be the same through content auto-detection.",
+   "Workbooks with 0-3 sheets over 9 names (XML specials, quotes, non-ASCII, a C1 control character, astral, 31 characters), every visibility and every sheet kind the format can express, 0-2 reference-valued defined names (pointing at B2 or at the last cell of the sheet), xlsb relationship ids with non-ASCII letters, both date systems with a date cell on every worksheet, xlsx prefix / xls name packing / ods table:name attribute last / ods style-name collisions across families / ods table:dde-links with an unnamed table / xlsx defined-name text split by a comment / xlsx workbook part with calcPr and an extLst holding x15:workbookPr / .rels attribute order / indented documents / xls substreams in reverse of BoundSheet8 order / a formula-less name record first (xls, xlsb) / the undefined bits of the xls hsState byte set: all choice vectors with <=3 (thorough 5) deviations plus the full product over one-sheet workbooks; sheet_names, sheets_metadata, defined_names and the date cells (xls: NUMBER or RK integer /100) are compared exactly and in order, and must be the same through content auto-detection.",
    "Trusted: the four writers; defined names are reference-valued only.",
    "DESIGN.md §2 C16"),
  "C10": ("model_checking", "E1-choice",
    "complete enumeration of all number-format token sequences up to length 3/5 through the real classifier vs a token-level reference + full product of style tables x number encodings x date systems in three formats",
-   "(a) all 179 k (thorough 560 M) sequences over a 56-token alphabet (incl. escaped escape characters) of the number-format grammar are classified by the real detect_custom_number_format and compared with a token-level reference (first section only; literals, escapes and bracket prefixes do not count); every built-in id 0-22, 37-49 through both lookup functions. (b) the full product (about 16 k files) of 14 style kinds, 5 serials, both date systems, XF position, out-of-range style index, General xf entries without numFmtId, applyNumberFormat 1/absent/0 and the optional elements Excel appends to workbook.xml (calcPr, extLst with x15:workbookPr) (xlsx), the fPhShow bit (xlsb), FORMAT strings stored 8- or 16-bit (xls) and every number encoding of xlsx / xls / xlsb is read end to end: variant, flavour, serial and is_1904 must match.",
+   "(a) all 199 k (thorough 668 M) sequences over a 58-token alphabet (incl. escaped escape characters and quoted / escaped semicolons) of the number-format grammar are classified by the real detect_custom_number_format and compared with a token-level reference (first section only; literals, escapes and bracket prefixes do not count); every built-in id 0-22, 37-49 through both lookup functions. (b) the full product (about 16 k files) of 14 style kinds, 5 serials, both date systems, XF position, out-of-range style index, General xf entries without numFmtId, applyNumberFormat 1/absent/0 and the optional elements Excel appends to workbook.xml (calcPr, extLst with x15:workbookPr) (xlsx), the fPhShow bit (xlsb), FORMAT strings stored 8- or 16-bit (xls) and every number encoding of xlsx / xls / xlsb is read end to end: variant, flavour, serial and is_1904 must match.",
    "Trusted: the token classes of props/c10.rs; token sequences mixing General/@ with date tokens, digit placeholders or separators, and elapsed tokens after a date token, are outside the grammar and skipped; locale-dependent built-in ids not asserted.",
    "DESIGN.md §2 C10"),
  "C19": ("model_checking", "E1-choice",
@@ -72,18 +72,18 @@ CHECKS = {
    "DESIGN.md §2 C03"),
  "C12": ("model_checking", "E1-choice",
    "stateless choice-tree exploration: every legal set of CONTINUE cut points x per-segment 8/16-bit packing of small shared-string tables on the real reader",
-   "single-, two- and three-string tables (all texts of <=3 characters + 4-character texts without the astral character; thorough: all of <=4 + 5-character texts without it) over {ASCII, Latin-1, C1 control U+0091, BMP-only, astral} characters with rich-run / ExtRst variants are serialised under every subset of legal cut points and every packing of compressible segments (full product on small tables, <=2/3 deviations otherwise), plus 9000- and 32767-character strings cut at the 8224-byte limit, an SST record holding only its header, tables of 255..66000 strings; LABEL, FORMULA+STRING (3 or 300 characters; directly or behind a SHRFMLA / ARRAY / TABLE record) and sheet names in both packings; every cell referencing every string is compared.",
+   "single-, two- and three-string tables (all texts of <=3 characters + 4-character texts without the astral character; thorough: all of <=4 + 5-character texts without it) over {ASCII, Latin-1, C1 control U+0091, BMP-only, astral} characters with rich-run / ExtRst variants (incl. a zero-length ExtRst block) are serialised under every subset of legal cut points and every packing of compressible segments (full product on small tables, <=2/3 deviations otherwise), plus 9000- and 32767-character strings cut at the 8224-byte limit, an SST record holding only its header, tables of 255..66000 strings; LABEL, FORMULA+STRING (3 or 300 characters; directly or behind a SHRFMLA / ARRAY / TABLE record) and sheet names in both packings; every cell referencing every string is compared.",
    "Trusted: the SST serialiser in gen/biff8.rs; cuts inside headers / surrogate pairs are not generated.",
    "DESIGN.md §2 C12"),
  "C13": ("model_checking", "E1-choice",
    "stateless choice-tree exploration of stream sets x physical compound-file layouts through the real Cfb reader",
-   "138 stream sets with sizes around the 64-byte mini sector, the 4096 mini-stream cutoff and sector multiples are written in every combination (thorough: full 73728-layout product; quick: <=2 deviations + full product on 6 sets) of v3/v4, 8 sector orders, 4 mini-sector orders, unused directory entries, directory order, free sectors, extra FAT sectors, free mini sectors, stale bytes after the name terminator, junk in the upper half of v3 size fields, a mini FAT sector without mini stream, chains owning spare sectors past the stream's size; a 7.3 MB stream (partly filled DIFAT sector) in both tiers; thorough adds a 15 MB stream with a full DIFAT sector. Streams must come back byte-exact. End to end, an xls workbook (small / above the cutoff) in every such layout must read the same cells as in the default layout, also when a BIFF5 Book stream precedes Workbook in the directory.",
+   "138 stream sets with sizes around the 64-byte mini sector, the 4096 mini-stream cutoff and sector multiples are written in every combination (thorough: full 73728-layout product; quick: <=2 deviations + full product on 6 sets) of v3/v4, 8 sector orders, 4 mini-sector orders, unused directory entries, directory order, free sectors, extra FAT sectors, free mini sectors, stale bytes after the name terminator, junk in the upper half of v3 size fields, a mini FAT sector without mini stream, chains owning spare sectors past the stream's size; a 7.3 MB stream (partly filled DIFAT sector) and a 15.9 MB stream (two DIFAT sectors) in both tiers; thorough adds a 15 MB stream with a full DIFAT sector. Streams must come back byte-exact. End to end, an xls workbook (small / above the cutoff) with a three-module VBA project (one module stream above the cutoff) in every such layout must read the same cells as in the default layout, also when a BIFF5 Book stream precedes Workbook in the directory. The Workbook / Book stream of every xls fixture of the repository is re-wrapped into 24 fresh containers as well and must read as the fixture does.",
    "Trusted: gen/cfb.rs (MS-CFB). The directory red-black colouring is not varied.",
    "DESIGN.md §2 C13"),
  "C01": ("model_checking", "E1-choice",
    "stateless choice-tree exploration of logical xlsx sheets x legal physical encodings on the real reader vs a map model",
-   "Every sheet with <=2 (thorough 3) cells of 31 kinds, optionally in a 1904 workbook, (incl. numbers under General / date / 0.00 styles, formulas caching the empty string or text with XML references, inline and formula strings with leading / trailing white space) in a 3x4 window at four anchors (A1 .. XFD1048576 corner) is written under every choice vector with <=2 (thorough 3) deviations over cell kinds and 26 variation points (cell attributes in the order t s r, XML comments, optional neighbours of sheetData, true/false booleans, sst count below the item count, relationship ids in shuffled order, a stale dimension, General xf entries without numFmtId, indented XML, XL/ folder case, applyNumberFormat 1/absent/0, Target before Type in .rels, rows that never carry r, formula and value text split by CDATA and comments, inline strings followed by phonetic runs, ...), plus the full encoding product on representative sheets; each file is read through worksheet_range and worksheet_range_ref and compared cell-by-cell and bound-by-bound with the model.",
-   "Trusted: the independent writer gen/xlsx.rs (ECMA-376) and the map model; inputs outside the alphabet (relationship prefixes other than r:, extLst children, _xHHHH_ escapes) are not generated.",
+   "Every sheet with <=2 (thorough 3) cells of 32 kinds (all eight error constants), optionally in a 1904 workbook, (incl. numbers under General / date / 0.00 styles, formulas caching the empty string or text with XML references, inline and formula strings with leading / trailing white space) in a 3x4 window at four anchors (A1 .. XFD1048576 corner) is written under every choice vector with <=2 (thorough 3) deviations over cell kinds and 26 variation points (cell attributes in the order t s r, XML comments, optional neighbours of sheetData, true/false booleans, sst count below the item count, relationship ids in shuffled order, a stale dimension, General xf entries without numFmtId, indented XML, XL/ folder case, applyNumberFormat 1/absent/0, Target before Type in .rels, rows that never carry r, formula and value text split by CDATA and comments, inline strings followed by phonetic runs, ...), plus the full encoding product on representative sheets; each file is read through worksheet_range and worksheet_range_ref and compared cell-by-cell and bound-by-bound with the model.",
+   "Trusted: the independent writer gen/xlsx.rs (ECMA-376) and the map model; inputs outside the alphabet (relationship prefixes other than r:, _xHHHH_ escapes) are not generated.",
    "DESIGN.md §2 C01"),
  "C04": ("model_checking", "E1-choice",
    "stateless choice-tree exploration: every run-length composition of every small ods grid on the real reader vs a map model",
@@ -97,7 +97,7 @@ CHECKS = {
    "DESIGN.md §2 C05"),
  "C09": ("model_checking", "E1-choice",
    "stateless choice-tree exploration (full product / deviation-bounded) of ranges x header configs x target shapes on the real RangeDeserializer vs a reference row mapper",
-   "Every small range (origin, 0-3 rows, 1-3 columns, 15 cell values incl. two error kinds, the strings true / False, the zero-length string, an integer beyond 2^53 and a fraction below one), every header mode (none / all, each also reached through another builder setting / every ordered custom selection incl. the empty one, names padded with blanks, tabs, newlines or no-break spaces and unknown names / struct field names) and 14 target record shapes (incl. enum fields) are enumerated; every item, the items also when the iterator is advanced by nth(0), nth(1) or collect(), every size_hint before each next() and every CellError kind and absolute position is compared with a reference mapper. Full product on small jobs, all choice vectors with <=2 (thorough 3) deviations from the default on the rest.",
+   "Every small range (origin, 0-3 rows, 1-3 columns, 18 cell values incl. two error kinds, numeric text that fits only some numeric types, the strings true / False, the zero-length string, an integer beyond 2^53 and a fraction below one), every header mode (none / all, each also reached through another builder setting / every ordered custom selection incl. the empty one, names padded with blanks, tabs, newlines or no-break spaces and unknown names / struct field names) and 15 target record shapes (incl. enum and u8 fields) are enumerated; every item, the items also when the iterator is advanced by nth(0), nth(1) or collect(), every size_hint before each next() and every CellError kind and absolute position is compared with a reference mapper. Full product on small jobs, all choice vectors with <=2 (thorough 3) deviations from the default on the rest. Every sheet of every fixture workbook of the repository is deserialized row by row as well (Vec<Data>, no headers) against the same reference conversions.",
    "Trusted: the reference conversions in props/c09.rs; serde's derive. Custom error messages are not compared.",
    "DESIGN.md §2 C09"),
  "C11": ("model_checking", "sweep",
